@@ -218,3 +218,103 @@ Proof.
   split; [vm_compute; reflexivity|]. split; [vm_compute; reflexivity|]. split; [vm_compute; reflexivity|].
   eexists; eexists; eexists. split; [vm_compute; reflexivity|]. split; vm_compute; reflexivity.
 Qed.
+
+(* ================================================================== the replaced directory has no watch of its own *)
+(* non-recursive watch, or the target lies outside the scope: the kernel has nothing to say about the victim, the
+   operation looks like a rename onto a free name *)
+Section ReplaceUnwatched.
+  Variable C : cfg.
+  Variable full : bool.
+  Variables (w : world) (k : kst) (r : rstate).
+  Hypothesis Hq : k_queue k = [].
+  Hypothesis Hpend : pend r = None.
+  Let rec := c_recursive C.
+  Let root := c_root C.
+
+  Ltac own :=
+    cbn [pend k_cookie ContractProofs.kev]; intros c0 p0 Hc0;
+    first [ rewrite Hpend in Hc0; discriminate
+          | match type of Hc0 with context [if ?b then _ else _] =>
+              destruct b; [inversion Hc0; reflexivity | rewrite Hpend in Hc0; discriminate] end ].
+
+  Ltac start_rename Happ :=
+    unfold delivers, deliver_one; rewrite Happ;
+    unfold contract; rewrite ?in_scope_child by assumption;
+    cbn [kernel_op]; rewrite ?dirname_child, ?basename_child by assumption;
+    match goal with
+    | |- context [ {| k_watches := k_watches k; k_next_wd := k_next_wd k; k_queue := k_queue k;
+                      k_next_cookie := ?c |} ] =>
+      change {| k_watches := k_watches k; k_next_wd := k_next_wd k; k_queue := k_queue k;
+                k_next_cookie := c |} with (kset k (k_queue k) c)
+    end; rewrite Hq.
+
+  Lemma contract_rename_dir_over_unwatched dp np dq nq w' :
+    dp <> [] -> last_is_sep dp = false -> valid_name np = true ->
+    dq <> [] -> last_is_sep dq = false -> valid_name nq = true ->
+    cover C r k (w_fs w) dp -> cover C r k (w_fs w) dq ->
+    fisdir (dp ++ sep :: np) (w_fs w) = true -> fisdir (dq ++ sep :: nq) (w_fs w) = true ->
+    watch_of_ino k (ino_of (w_fs w) (dq ++ sep :: nq)) = None ->
+    (c_recursive C = false \/ in_scope (c_recursive C) (c_root C) (dq ++ sep :: nq) = false) ->
+    content (w_fs w') (dq ++ sep :: nq) = content (w_fs w) (dp ++ sep :: np) ->
+    wf_tree (content (w_fs w) (dp ++ sep :: np)) = true ->
+    apply_op w (Rename (dp ++ sep :: np) (dq ++ sep :: nq)) = Some w' ->
+    delivers C full w k r (Rename (dp ++ sep :: np) (dq ++ sep :: nq)).
+  Proof.
+    intros Hdp Hsp Hnp Hdq Hsq Hnq Hcp Hcq Hfp Hfq Hvw Hvict Hct Hwf Happ.
+    rewrite in_scope_child in Hvict by assumption. start_rename Happ.
+    rewrite Hfp, Hfq. unfold cover in Hcp, Hcq. fold rec root in Hcp, Hcq, Hvict |- *.
+    assert (Hsm := sub_moved_synth_eq (dp ++ sep :: np) (dq ++ sep :: nq) _ (child_ne dp np) (child_ne dq nq)
+                                      (child_last_sep dq nq Hnq) Hwf).
+    assert (Hsc := sub_created_synth_eq (dq ++ sep :: nq) _ (child_ne dq nq) (child_last_sep dq nq Hnq) Hwf).
+    rewrite <- Hct in Hsm, Hsc.
+    destruct (watched_dir rec root dp).
+    - destruct Hcp as [wp [Hw [Hm [Hp Hf]]]].
+      rewrite (knotify_hit _ _ _ _ _ _ _ _ wp Hw Hm) by reflexivity. rewrite kpush_nil.
+      destruct (watched_dir rec root dq) eqn:Ewq.
+      + assert (Hr : rec = false) by (destruct Hvict as [H|H]; [exact H | discriminate]).
+        destruct Hcq as [wq [Hw' [Hm' [Hp' Hf']]]].
+        rewrite (knotify_hit _ _ _ _ _ _ _ _ wq Hw' Hm') by reflexivity.
+        rewrite kpush_one by (apply kraw_neq_mask; reflexivity).
+        rewrite kgone_miss by exact Hvw.
+        cbn [k_queue kset read_batch].
+        rewrite (ContractProofs.read_one_from C _ _ _ _ _ dp) by (first [exact Hpend | exact Hp | reflexivity]).
+        match goal with |- context [read_one C ?t (?r1, ?k1, ?acc) ?e] =>
+          destruct (ContractProofs.read_one_to C t r1 k1 acc e dq) as [r' [k' Hrd]];
+            [own | exact Hp' | reflexivity | reflexivity | reflexivity | reflexivity | rewrite Hrd] end.
+        cbn [k_name ContractProofs.kev app rpath]. rewrite ?rpath_child by assumption.
+        rewrite (join_name dq nq) by assumption.
+        rewrite <- Hct.
+        set (p := dp ++ sep :: np) in *. set (q := dq ++ sep :: nq) in *.
+        rewrite (group_pair C _ _ (k_next_cookie k)) by reflexivity.
+        eexists. split; [reflexivity|].
+        cbn [emit_all emit]. unfold emit_pair. cbn [r_path r_mask mkraw ContractProofs.kev k_mask fst snd].
+        change (is_directory (N.lor IN_MOVED_FROM IN_ISDIR)) with true.
+        rewrite Hr. cbn [andb app]. rewrite ?app_nil_r. reflexivity.
+      + rewrite knotify_miss by exact Hcq. rewrite kgone_miss by exact Hvw.
+        cbn [k_queue kset read_batch].
+        rewrite (ContractProofs.read_one_from C _ _ _ _ _ dp) by (first [exact Hpend | exact Hp | reflexivity]).
+        cbn [k_name ContractProofs.kev app rpath]. rewrite ?rpath_child by assumption.
+        set (p := dp ++ sep :: np) in *. set (q := dq ++ sep :: nq) in *.
+        eexists. split; [reflexivity|]. destruct full; reflexivity.
+    - rewrite knotify_miss by exact Hcp.
+      destruct (watched_dir rec root dq) eqn:Ewq.
+      + assert (Hr : rec = false) by (destruct Hvict as [H|H]; [exact H | discriminate]).
+        destruct Hcq as [wq [Hw' [Hm' [Hp' Hf']]]].
+        rewrite (knotify_hit _ _ _ _ _ _ _ _ wq Hw' Hm') by reflexivity. rewrite kpush_nil.
+        rewrite kgone_miss by exact Hvw.
+        cbn [k_queue kset read_batch].
+        match goal with |- context [read_one C ?t (?r1, ?k1, ?acc) ?e] =>
+          destruct (ContractProofs.read_one_to C t r1 k1 acc e dq) as [r' [k' Hrd]];
+            [own | exact Hp' | reflexivity | reflexivity | reflexivity | reflexivity | rewrite Hrd] end.
+        cbn [k_name ContractProofs.kev app rpath]. rewrite (join_name dq nq) by assumption.
+        rewrite <- Hct.
+        set (p := dp ++ sep :: np) in *. set (q := dq ++ sep :: nq) in *.
+        eexists. split; [reflexivity|].
+        match goal with |- context [group_batch C [?e]] => change (group_batch C [e]) with [Single e] end.
+        cbn [emit_all emit]. unfold emit_single. cbn [r_path r_mask mkraw ContractProofs.kev k_mask fst snd].
+        change (is_moved_to (N.lor IN_MOVED_TO IN_ISDIR)) with true.
+        change (is_directory (N.lor IN_MOVED_TO IN_ISDIR)) with true. cbv iota.
+        rewrite Hr. destruct full; cbn [andb app]; rewrite ?app_nil_r; reflexivity.
+      + rewrite knotify_miss by exact Hcq. rewrite kgone_miss by exact Hvw. eexists; split; reflexivity.
+  Qed.
+End ReplaceUnwatched.
